@@ -7,6 +7,13 @@ from core import Fraction, frac, rat
 from props import metrics_common as mc
 from props import metrics_cli as cli
 
+MODELLED = ["evo/core/metrics.py:APE.__init__", "evo/core/metrics.py:APE.ape_base", "evo/core/metrics.py:APE.process_data",
+            "evo/core/metrics.py:PE.change_unit", "evo/core/lie_algebra.py:relative_se3", "evo/core/lie_algebra.py:se3_inverse",
+            "evo/core/lie_algebra.py:so3_log_angle", "evo/core/lie_algebra.py:so3_log", "evo/core/lie_algebra.py:is_so3",
+            "evo/main_ape.py:ape", "evo/main_ape.py:run", "evo/common_ape_rpe.py:downsample_or_filter",
+            "evo/common_ape_rpe.py:get_pose_relation", "evo/common_ape_rpe.py:load_trajectories",
+            "evo/main_ape_parser.py:parser"]
+
 RULE = ("process_data cases = (relation, storage mode matrices|positions+quaternions, reference poses, estimate poses): "
         "exact-grid stream (axis rotations, dyadic positions), random stream (scales 1e-3..1e6, 5e5 offsets, uniform "
         "rotations, relative angles 1e-16..1e-3 and pi-1e-12..pi), unequal lengths, non-SO(3) blocks; values compared with "
@@ -258,11 +265,12 @@ def evaluate(ctx, cases):
 OPEN = ["float rounding of evo's evaluation: values agree with the exact definition within 64*2^-53*(max|input|+|result|), checked per case, not proved",
         "scipy's rotation-vector code is not modelled: its angle is compared with atan2(sqrt(s2), c) of the model's rational (c, s2) core",
         "real-valued angle layer: sin^2+cos^2=1 and c in [-1,1] are proved for the core of a proper rotation; that atan2 of it is the geodesic angle is the definition used, not derived from a matrix logarithm",
-        "CLI: the geometric steps (align, project, filters, association) are interpreted with evo's own core API (properties C03-C05, C10, C11, C14); proved here is the option -> step wiring"]
+        "CLI inside the model (Pipeline.apeRun): parameters, not computed: the Umeyama triple (C03 certificate), projected directions (C14), accumulated distances and rotation angles compared by the motion filter (C11 conventions); the file readers are C06/C07 (the model starts from the loaded trajectories)"]
 
 
 def check(ctx):
     lean = core.lean_side(ctx.prop, ctx.tier)
+    core.drift(ctx, MODELLED)
     cli.check_tables(ctx, "ape")
     cases = list(gen_cases(ctx))
     evaluate(ctx, cases)
